@@ -270,5 +270,14 @@ def envRun (E : Env S A O R K) : S → K → List A → List (StepOut S O R)
   | _, _, [] => []
   | s, k, a :: as => let out := E.step s a (sub k 1); out :: envRun E out.state (sub k 0) as
 
+
+/-! ### Gymnax adapter (`LeraxToGymnaxEnv.step_env`, `/repo/src/lerax/compatibility/gymnax.py`) -/
+
+/-- `step_env(key, state, action)`: `env.step(state, action, key)`; the two flags are merged into
+    Gymnax's single `done = termination | truncation` -/
+def gymnaxStepEnv (E : Env S A O R K) (state : S) (action : A) (key : K) : O × S × R × Bool :=
+  let out := E.step state action key
+  (out.observation, out.state, out.reward, out.terminal || out.truncate)
+
 end
 end Lerax.Env
